@@ -280,7 +280,7 @@ def run_task(sp: Dict[str, Any], tier: str, seed: int) -> Dict[str, Any]:
                     "instance_digest": dig[0].hex(), "validator": sp["validator"]}]
         res = dict(model=sp["model"], states=distinct, transitions=n + int(cnt.get("extra_evaluations", 0)),
                    validated=validated, samples=samples, violations=viol, vacuity=dict(cnt),
-                   exhaustive=True, window=K, window_start=lo, regression_keys=[k for k in sp["extra_keys"]],
+                   exhaustive=not facts.get("exact_cover_undecided"), window=K, window_start=lo, regression_keys=[k for k in sp["extra_keys"]],
                    generation_s=round(t_gen, 2), task_s=round(time.time() - t0, 2),
                    violating_instances={k: int(v) for k, v in n_by_sig.items()},
                    first_violating_key={k: int(v) for k, v in first_bad.items()}, **facts)
